@@ -96,11 +96,17 @@ impl Runner {
         I: ConcurrentIterX,
         F: Fn(usize) + Sync,
     {
+        #[cfg(feature = "verif-hooks")]
+        let iter = &crate::verif::IterShim(iter);
         let runner = Self::new(params, task_type, iter.try_get_len());
+        #[cfg(feature = "verif-hooks")]
+        runner.verif_run_begin();
 
         let mut num_spawned = 0;
 
         std::thread::scope(|s| {
+            #[cfg(feature = "verif-hooks")]
+            let s = &crate::verif::ScopeShim(s);
             let mut chunk: usize = runner.chunk_size.inner();
             'lag_period: loop {
                 for _ in 0..LAG_PERIODICITY {
@@ -138,11 +144,17 @@ impl Runner {
         F: Fn(usize) -> Out + Sync,
         Out: Send + Sync,
     {
+        #[cfg(feature = "verif-hooks")]
+        let iter = &crate::verif::IterShim(iter);
         let runner = Self::new(params, task_type, iter.try_get_len());
+        #[cfg(feature = "verif-hooks")]
+        runner.verif_run_begin();
 
         let mut num_spawned = 0;
 
         std::thread::scope(|s| {
+            #[cfg(feature = "verif-hooks")]
+            let s = &crate::verif::ScopeShim(s);
             let mut handles = vec![];
             let mut chunk: usize = runner.chunk_size.inner();
             'lag_period: loop {
@@ -187,9 +199,15 @@ impl Runner {
         T: Send,
         R: Fn(T, T) -> T,
     {
+        #[cfg(feature = "verif-hooks")]
+        let iter = &crate::verif::IterShim(iter);
         let runner = Self::new(params, task_type, iter.try_get_len());
+        #[cfg(feature = "verif-hooks")]
+        runner.verif_run_begin();
 
         std::thread::scope(|s| {
+            #[cfg(feature = "verif-hooks")]
+            let s = &crate::verif::ScopeShim(s);
             let mut threads = Vec::with_capacity(runner.max_num_threads);
 
             let mut chunk: usize = runner.chunk_size.inner();
@@ -218,6 +236,23 @@ impl Runner {
 
             (num_threads, result)
         })
+    }
+}
+
+#[cfg(feature = "verif-hooks")]
+impl Runner {
+    fn verif_run_begin(&self) {
+        let exact = matches!(self.chunk_size, ResolvedChunkSize::Exact(_));
+        crate::verif::run_begin(self.max_num_threads, self.chunk_size.inner(), exact, self.input_len);
+    }
+
+    pub(crate) fn verif_new(params: Params, task: ParTask, input_len: Option<usize>) -> Self {
+        Self::new(params, task, input_len)
+    }
+
+    pub(crate) fn verif_settings(&self) -> (usize, bool, usize) {
+        let exact = matches!(self.chunk_size, ResolvedChunkSize::Exact(_));
+        (self.max_num_threads, exact, self.chunk_size.inner())
     }
 }
 
